@@ -934,7 +934,11 @@ partial def loop (hIn : IO.FS.Stream) (ds : DS) : IO DS := do
         ds := { ds with h := J.intOf j "h", stats := bump ds.stats "tx.continued.ok" ((J.intOf j "txs").toNat + 1) }
         for d in J.arrOf j "diffs" do
           let name := if phase == "reexport" then "export_import_export_same_state" else if phase == "imported" then "imported_state_same" else "continuation_same"
-          ds ← finding ds "monitor" "C20" name s!"{phase} at height {J.intOf j "h"} (exported after height {J.intOf j "cut"}, {J.strOf j "base"} history): {J.str d}"
+          -- a state that does not survive the export is also a failure of the properties of the modules whose history it is
+          let props := "C20" ++ (match J.strOf j "base" with
+            | "gov" => ",C11,C12,C13" | "oracle" => ",C14,C15" | "shield" => ",C02,C03,C04,C05,C06,C07" | "bankvm" => ",C01,C18,C19"
+            | "staking" => ",C09" | _ => "")
+          ds ← finding ds "monitor" props name s!"{phase} at height {J.intOf j "h"} (exported after height {J.intOf j "cut"}, {J.strOf j "base"} history): {J.str d}"
         pure ds
       | "xstate" => do
         -- the imported node's state: all block-boundary identities must hold on it
